@@ -224,10 +224,10 @@ Proof.
   - apply bar_draw_logic.
   - apply bar_draw_logic.
   - apply bar_drop_logic.
-  - (* OInsert *)
-    match goal with |- context [match ?X with Some _ => _ | None => _ end] => destruct X as [[m1 idx]|] end.
-    + cbn [fst]. rewrite bar_set_target_logic. reflexivity.
-    + reflexivity.
+  - (* OInsert (a bar that is a member already: no effect, fix bee77c9) *)
+    destruct (b_target (get_bar s b)); [| |reflexivity];
+      (match goal with |- context [match ?X with Some _ => _ | None => _ end] => destruct X as [[m1 idx]|] end;
+       [cbn [fst]; rewrite bar_set_target_logic; reflexivity | reflexivity]).
   - (* ORemove *)
     destruct (b_target (get_bar s b)) as [|tg|idx]; try reflexivity.
     destruct (ms_draw W H fails _ true None now _) as [[[m2 e] c'] ok]. cbn [fst].
@@ -506,15 +506,27 @@ Proof.
     rewrite He, Hc. split; [reflexivity|split; [apply Hz|reflexivity]].
   - destruct (bar_drop_hidden W H fails s b now Hh) as [He Hc].
     rewrite He, Hc. split; [reflexivity|split; [apply Hz|reflexivity]].
-  - (* OInsert *)
-    match goal with |- context [match ?X with Some l => ms_insert (s_mp s) l | None => None end] =>
-      destruct X as [l|] end; [|split; [reflexivity|split; [apply Hz|reflexivity]]].
-    destruct (ms_insert (s_mp s) l) as [[m1 idx]|] eqn:Ei;
-      [|split; [reflexivity|split; [apply Hz|reflexivity]]].
-    destruct (bar_set_target_hidden W H fails (set_s_mp s m1) b (TMulti idx) now) as [He Hc].
-    { unfold bar_hidden in *. cbn [s_mp set_s_mp]. change (get_bar (set_s_mp s m1) b) with (get_bar s b).
-      rewrite (ms_insert_target _ _ _ _ Ei). exact Hh. }
-    cbn [fst snd]. rewrite He, Hc. split; [reflexivity|split; [apply Hz|reflexivity]].
+  - (* OInsert (a member: no effect, fix bee77c9) *)
+    destruct (b_target (get_bar s b)) eqn:Ht0.
+    + idtac.
+      match goal with |- context [match ?X with Some l => ms_insert (s_mp s) l | None => None end] =>
+        destruct X as [l|] end; [|split; [reflexivity|split; [apply Hz|reflexivity]]].
+      destruct (ms_insert (s_mp s) l) as [[m1 idx]|] eqn:Ei;
+        [|split; [reflexivity|split; [apply Hz|reflexivity]]].
+      destruct (bar_set_target_hidden W H fails (set_s_mp s m1) b (TMulti idx) now) as [He Hc].
+      { unfold bar_hidden in *. cbn [s_mp set_s_mp]. change (get_bar (set_s_mp s m1) b) with (get_bar s b).
+        rewrite (ms_insert_target _ _ _ _ Ei). exact Hh. }
+      cbn [fst snd]. rewrite He, Hc. split; [reflexivity|split; [apply Hz|reflexivity]].
+    + idtac.
+      match goal with |- context [match ?X with Some l => ms_insert (s_mp s) l | None => None end] =>
+        destruct X as [l|] end; [|split; [reflexivity|split; [apply Hz|reflexivity]]].
+      destruct (ms_insert (s_mp s) l) as [[m1 idx]|] eqn:Ei;
+        [|split; [reflexivity|split; [apply Hz|reflexivity]]].
+      destruct (bar_set_target_hidden W H fails (set_s_mp s m1) b (TMulti idx) now) as [He Hc].
+      { unfold bar_hidden in *. cbn [s_mp set_s_mp]. change (get_bar (set_s_mp s m1) b) with (get_bar s b).
+        rewrite (ms_insert_target _ _ _ _ Ei). exact Hh. }
+      cbn [fst snd]. rewrite He, Hc. split; [reflexivity|split; [apply Hz|reflexivity]].
+    + split; [reflexivity|split; [apply Hz|reflexivity]].
   - (* ORemove *)
     unfold bar_hidden in Hh. destruct (b_target (get_bar s b)) as [|tg|idx];
       [split; [reflexivity|split; [apply Hz|reflexivity]]|discriminate|].
@@ -764,16 +776,29 @@ Proof.
   - apply bar_println_tgt.
   - apply bar_suspend_tgt.
   - apply bar_drop_tgt.
-  - (* OInsert *)
-    match goal with |- context [match ?X with Some l => ms_insert (s_mp s) l | None => None end] =>
-      destruct X as [l|] end; [|apply Hle, tgt_le_refl].
-    destruct (ms_insert (s_mp s) l) as [[m1 idx]|] eqn:Ei; [|apply Hle, tgt_le_refl].
-    cbn [fst].
-    destruct (bar_set_target_tgt W H fails (set_s_mp s m1) b (TMulti idx) now) as [Hk Hj].
-    cbn [s_mp set_s_mp] in Hk. rewrite (ms_insert_target _ _ _ _ Ei) in Hk.
-    split; [exact Hk|]. intros j. destruct (Hj j) as [HT|[-> Ht]].
-    + left. exact HT.
-    + right. right. exists loc, idx. split; [reflexivity|exact Ht].
+  - (* OInsert (a member: no effect, fix bee77c9) *)
+    destruct (b_target (get_bar s b)) eqn:Ht0.
+    + idtac.
+      match goal with |- context [match ?X with Some l => ms_insert (s_mp s) l | None => None end] =>
+        destruct X as [l|] end; [|apply Hle, tgt_le_refl].
+      destruct (ms_insert (s_mp s) l) as [[m1 idx]|] eqn:Ei; [|apply Hle, tgt_le_refl].
+      cbn [fst].
+      destruct (bar_set_target_tgt W H fails (set_s_mp s m1) b (TMulti idx) now) as [Hk Hj].
+      cbn [s_mp set_s_mp] in Hk. rewrite (ms_insert_target _ _ _ _ Ei) in Hk.
+      split; [exact Hk|]. intros j. destruct (Hj j) as [HT|[-> Ht]].
+      * left. exact HT.
+      * right. right. exists loc, idx. split; [reflexivity|exact Ht].
+    + idtac.
+      match goal with |- context [match ?X with Some l => ms_insert (s_mp s) l | None => None end] =>
+        destruct X as [l|] end; [|apply Hle, tgt_le_refl].
+      destruct (ms_insert (s_mp s) l) as [[m1 idx]|] eqn:Ei; [|apply Hle, tgt_le_refl].
+      cbn [fst].
+      destruct (bar_set_target_tgt W H fails (set_s_mp s m1) b (TMulti idx) now) as [Hk Hj].
+      cbn [s_mp set_s_mp] in Hk. rewrite (ms_insert_target _ _ _ _ Ei) in Hk.
+      split; [exact Hk|]. intros j. destruct (Hj j) as [HT|[-> Ht]].
+      * left. exact HT.
+      * right. right. exists loc, idx. split; [reflexivity|exact Ht].
+    + apply Hle, tgt_le_refl.
   - (* ORemove *)
     destruct (b_target (get_bar s b)) as [|tg|idx] eqn:Et; try (apply Hle, tgt_le_refl).
     match goal with |- context [ms_draw W H fails ?mm true None now ?c] =>
@@ -973,9 +998,11 @@ Proof.
   { intros s'. split; [split; [discriminate|intros [Hf _]; discriminate]|discriminate]. }
   destruct o; cbn [step is_reporting]; try apply Hnr.
   - (* OInsert *)
-    match goal with |- context [match ?X with Some l => ms_insert (s_mp s) l | None => None end] =>
-      destruct X as [l|] end; [|apply Hnr].
-    destruct (ms_insert (s_mp s) l) as [[m1 idx]|]; [|apply Hnr]. cbn [fst snd]. apply Hnr.
+    destruct (b_target (get_bar s b)); [| |apply Hnr];
+      (match goal with |- context [match ?X with Some l => ms_insert (s_mp s) l | None => None end] =>
+         destruct X as [l|] end; [|apply Hnr];
+       match goal with |- context [ms_insert (s_mp s) ?l0] =>
+         destruct (ms_insert (s_mp s) l0) as [[m1 idx]|]; [|apply Hnr] end; cbn [fst snd]; apply Hnr).
   - (* ORemove *)
     destruct (b_target (get_bar s b)); try apply Hnr.
     destruct (ms_draw W H fails _ true None now _) as [[[m2 e] c'] ok]. apply Hnr.
